@@ -7,6 +7,9 @@ recodings (value-level).  Decided here (necessary conditions, may-analyses on th
  COVER.read    in every scalar-multiplication routine (serial and AVX2 copies, all five basepoint-table radices, Straus,
                Pippenger per window width, precomputed Straus, vartime double-base, variable-base), every digit position
                that the recoder called there may leave non-zero is read by some execution of the routine.
+ NONE          every optional_* multiscalar routine (serial and AVX2 Straus and Pippenger, precomputed Straus, the EdwardsPoint /
+               RistrettoPoint front ends), analysed with a non-empty collection in which every point is None, can only return None:
+               a missing point is never skipped.  (The converse - only Some points give Some - is checked as "Some is reachable".)
  FIT           digit ranges fit the lookup tables: these are the debug-assertion / bounds obligations of
                LookupTable*::select and NafLookupTable*::select decided in C11 for every exported entry point (cited).
 """
@@ -68,6 +71,7 @@ def run(tier, R):
         Iq = lambda s, c=cfg: "%s:%s" % (c, s)
         cover_write(F, R, Iq, backend)
         cover_read(F, R, Iq, backend)
+        none_rule(F, R, Iq, backend, tier)
 
 
 # ------------------------------------------------------------------------------------------------------------ COVER.write
@@ -162,3 +166,57 @@ def cover_read(F, R, I_, backend):
 def short(p):
     p = p.replace("curve25519_dalek::", "").replace("backend::", "")
     return p[-110:]
+
+
+# ------------------------------------------------------------------------------------------------------------ NONE
+def none_rule(F, R, I_, backend, tier):
+    from absint import TOP
+    n = 0
+    D = Driver(F, backend)
+    D.all_generic_roots = True
+    sc = D.inv.value("curve25519_dalek::scalar::Scalar")
+    for f in sorted(F.fns.values(), key=lambda f: f["key"]):
+        if "mir" not in f or f["kind"] == "Closure" or f["crate"] != "curve25519_dalek" or \
+                f.get("name") not in ("optional_multiscalar_mul", "optional_mixed_multiscalar_mul", "_impl_optional_multiscalar_mul", "_impl_optional_mixed_multiscalar_mul"):
+            continue
+        fv = view(F, f)
+        if fv.nargs < 2 or fv.nb <= 4:
+            continue       # the small target-feature trampolines forward to the _impl_ function analysed here
+        ov0 = D.generic_overrides(f)
+        if ov0 is None:
+            # the _impl_ / backend-level copies: same shapes as the trait-level entry points
+            ov0 = {0: D.coll_iter(sc), 1: ("__coll_vals", None, 2**20)} if fv.nargs == 2 else \
+                {0: TOP, 1: D.coll_iter(sc), 2: D.coll_iter(sc), 3: ("__coll_vals", None, 2**20)}
+        pidx = max(ov0)
+        if not (isinstance(ov0[pidx], tuple) and ov0[pidx][0] == "__coll_vals"):
+            continue
+        pt = ov0[pidx][1]
+        if pt is None or pt[0] != "en":
+            ep = D.inv.value("curve25519_dalek::ristretto::RistrettoPoint" if "istretto" in (f.get("self_ty") or "") else "curve25519_dalek::edwards::EdwardsPoint")
+            pt = ("en", ((0, ()), (1, (ep,))))
+        some_only = ("en", tuple(x for x in pt[1] if x[0] == 1))
+        cases = [("all-None", ("en", ((0, ()),)))] + ([("all-Some", some_only)] if tier == "thorough" else [])
+        for label, elem in cases:
+            ov = dict(ov0)
+            ov[pidx] = ("__coll_vals_nonempty", elem, 2**20)
+            # the scalar collection paired with the points is non-empty too (a zip stops at the shorter one)
+            ov[pidx - 1] = ("__coll_iter_nonempty", sc, 2**20)
+            nerr = len(D.errors)
+            ret = D.run_root(f, ov, check_ret=False)
+            inst = I_("%s:%s" % (short(f["path"]), label))
+            n += 1
+            if len(D.errors) > nerr or ret is None or ret[0] != "en":
+                R.viol("C04.none", inst, "analysis did not produce an Option value (%s)" % (D.errors[-1][1] if len(D.errors) > nerr else (ret[0] if ret else None)), F.loc(f))
+                continue
+            vs = {v for v, _ in ret[1]}
+            if label == "all-None":
+                if vs == {0}:
+                    R.ok("C04.none", inst, "a non-empty batch whose points are all None can only yield None")
+                else:
+                    R.viol("C04.none", inst, "with every input point None (and at least one input) the routine can still return Some: a missing point is skipped instead of failing the whole computation", F.loc(f))
+            else:
+                if 1 in vs:
+                    R.ok("C04.none", inst, "Some is reachable when every point is Some")
+                else:
+                    R.viol("C04.none", inst, "the routine cannot return Some even when every point is Some", F.loc(f))
+    R.floor("C04.none", I_("optional multiscalar routines"), n, 5)
